@@ -314,8 +314,16 @@ findTypeLoop:
 			case *Gsub1_1, *Gsub1_2, *Gsub2_1, *Gsub3_1, *Gsub4_1, *Gsub8_1:
 				extLookupType = gsubExtensionLookupType
 				break findTypeLoop
-			case *Gpos1_1, *Gpos1_2, *Gpos2_1, *Gpos2_2, *Gpos3_1, *Gpos4_1, *Gpos5_1, *Gpos6_1:
+			case *Gpos1_1, *Gpos1_2, Gpos2_1, *Gpos2_1, *Gpos2_2, *Gpos3_1, *Gpos4_1, *Gpos5_1, *Gpos6_1:
 				extLookupType = gposExtensionLookupType
+				break findTypeLoop
+			case *SeqContext1, *SeqContext2, *SeqContext3,
+				*ChainedSeqContext1, *ChainedSeqContext2, *ChainedSeqContext3:
+				// types 5 and 6 in GSUB tables, 7 and 8 in GPOS tables
+				extLookupType = gsubExtensionLookupType
+				if l.Meta.LookupType > 6 {
+					extLookupType = gposExtensionLookupType
+				}
 				break findTypeLoop
 			}
 		}
